@@ -8,7 +8,7 @@ CG = dict(units=["type.c"], mode="dfcc", enforce="gen_expr", rec=True, cut=["err
 META = dict(
     level="proof",
     claim="Result typing (add_type/usual_arith_conv/get_common_type) equals C11 6.3.1 for every operator and operand-type pair; the text emitted by the real gen_expr/cast/load/store/cmp_zero, executed on a ghost x86-64 machine, computes the C11 value of every integer operator, conversion, load, store and truth test for all operand values and arbitrary register garbage. Nesting depth is covered by the recursive contract of gen_expr (children abstract). MUL/DIV/MOD value equality is bounded (8-bit magnitudes).",
-    note="Trusted: CBMC, the ghost x86 machine (spec/x86_ghost.h, written from the Intel SDM), spec/c11_ops.h, the assembler/CPU. Also under contract: to_assign (op= keeps the operator and the unconverted right operand; three lvalue forms), new_add/new_sub scaling by the pointee size (incl. VLA rows). Not covered: the expression grammar (precedence/associativity), parser-side conversion insertion for arguments/returns, ++/-- rewriting (new_inc_dec), MUL/DIV/MOD values beyond 8-bit magnitudes.",
+    note="Trusted: CBMC, the ghost x86 machine (spec/x86_ghost.h, written from the Intel SDM), spec/c11_ops.h, the assembler/CPU. Also under contract: to_assign (op= keeps the operator and the unconverted right operand; three lvalue forms), new_add/new_sub scaling by the pointee size (incl. VLA rows). new_inc_dec: the tree built for A++/A-- is evaluated by an AST interpreter (trusted; each node kind has the meaning proved for the code generator) and yields the old value and stores old+-1, for integer objects and bit-fields of every offset/width. Not covered: the expression grammar (precedence/associativity), parser-side conversion insertion for arguments/returns, ++/-- on pointers and floating objects, MUL/DIV/MOD values beyond 8-bit magnitudes.",
     functions=["codegen.c:gen_expr", "codegen.c:push", "codegen.c:pop", "codegen.c:cast", "codegen.c:load", "codegen.c:store", "codegen.c:cmp_zero", "parse.c:to_assign", "parse.c:new_inc_dec", "parse.c:new_add", "parse.c:new_sub", "type.c:add_type", "type.c:get_common_type", "type.c:usual_arith_conv"],
     trusted_base=["CBMC 6.11", "spec/x86_ghost.h (Intel SDM rendering)", "spec/c11_ops.h"],
     assumptions=[],
